@@ -1,74 +1,115 @@
-//! Native replay helper for engine M's auto-reloader checks (C20): two threaded scenarios with forced timing.
-//!  * concurrent_first_acquire: two threads call acquire_env() for the first time while the creator is slow -
-//!    the creator must run once (acquirers are serialised by the cache lock, which is held while it runs);
-//!  * request_while_freshness_callback_runs: a request_reload() issued while another thread sits in the
-//!    (slow) freshness callback - i.e. while the notifier is locked - must not be lost: the next acquire_env()
-//!    after it returned rebuilds.
-//! Prints one JSON line per scenario {"scenario":..,"ok":bool,"detail":..}.
+//! Native replay helper for engine M's auto-reloader checks (C20): two threaded scenarios.  The interleaving is
+//! forced with explicit hand-shakes (a thread announces that it is inside the creator / the freshness callback
+//! and stays there until it is released), so the verdict does not depend on scheduling speed.
+//!  * concurrent_first_acquire: a second acquire_env() starts while the first one is inside the creator - the
+//!    creator must run once (acquirers are serialised by the cache lock, which is held while it runs);
+//!  * request_while_freshness_callback_runs: request_reload() is called while another thread sits in the
+//!    freshness callback - i.e. while the notifier is locked; once it has returned, the next acquire_env() rebuilds.
+//! Prints one JSON line per scenario {"scenario":..,"check":..,"ok":bool,"detail":..}.
 use minijinja::Environment;
 use minijinja_autoreload::AutoReloader;
 use std::sync::atomic::{AtomicBool, AtomicUsize, Ordering};
 use std::sync::Arc;
 use std::thread;
-use std::time::Duration;
+use std::time::{Duration, Instant};
+
+fn wait_until(flag: &AtomicBool, max: Duration) -> bool {
+    let t0 = Instant::now();
+    while !flag.load(Ordering::SeqCst) {
+        if t0.elapsed() > max {
+            return false;
+        }
+        thread::sleep(Duration::from_millis(2));
+    }
+    true
+}
+
+fn wait_count(n: &AtomicUsize, at_least: usize, max: Duration) -> bool {
+    let t0 = Instant::now();
+    while n.load(Ordering::SeqCst) < at_least {
+        if t0.elapsed() > max {
+            return false;
+        }
+        thread::sleep(Duration::from_millis(2));
+    }
+    true
+}
 
 fn main() {
     // ---- 1
     {
         let created = Arc::new(AtomicUsize::new(0));
-        let c = created.clone();
+        let release = Arc::new(AtomicBool::new(false));
+        let (c, r) = (created.clone(), release.clone());
         let reloader = Arc::new(AutoReloader::new(move |_notifier| {
             c.fetch_add(1, Ordering::SeqCst);
-            thread::sleep(Duration::from_millis(200));
+            // stay inside the creator until released (at most 5 s)
+            wait_until(&r, Duration::from_secs(5));
             Ok(Environment::new())
         }));
         let r1 = reloader.clone();
         let t1 = thread::spawn(move || {
             let _g = r1.acquire_env().unwrap();
         });
-        thread::sleep(Duration::from_millis(50));
+        // the first acquirer is inside the creator now
+        let entered = wait_count(&created, 1, Duration::from_secs(5));
         let r2 = reloader.clone();
         let t2 = thread::spawn(move || {
             let _g = r2.acquire_env().unwrap();
         });
+        // give the second acquirer the chance to (wrongly) enter the creator as well
+        wait_count(&created, 2, Duration::from_millis(400));
+        release.store(true, Ordering::SeqCst);
         t1.join().unwrap();
         t2.join().unwrap();
         let n = created.load(Ordering::SeqCst);
-        println!("{}", serde_json::json!({"scenario": "concurrent_first_acquire", "check": "lock_held_at_creator", "ok": n == 1,
+        println!("{}", serde_json::json!({"scenario": "concurrent_first_acquire", "check": "lock_held_at_creator", "ok": entered && n == 1,
             "detail": format!("creator ran {} time(s) for two overlapping first acquires without any request", n)}));
     }
     // ---- 2
     {
         let created = Arc::new(AtomicUsize::new(0));
-        let slow = Arc::new(AtomicBool::new(false));
+        let hold = Arc::new(AtomicBool::new(false));
+        let inside = Arc::new(AtomicBool::new(false));
+        let release = Arc::new(AtomicBool::new(false));
         let c = created.clone();
-        let s = slow.clone();
+        let (h, i, r) = (hold.clone(), inside.clone(), release.clone());
         let reloader = Arc::new(AutoReloader::new(move |notifier| {
             c.fetch_add(1, Ordering::SeqCst);
-            let s2 = s.clone();
+            let (h, i, r) = (h.clone(), i.clone(), r.clone());
             notifier.set_callback(move || {
-                if s2.load(Ordering::SeqCst) {
-                    thread::sleep(Duration::from_millis(300));
+                if h.load(Ordering::SeqCst) {
+                    i.store(true, Ordering::SeqCst);
+                    wait_until(&r, Duration::from_secs(5));
                 }
                 false
             });
             Ok(Environment::new())
         }));
         drop(reloader.acquire_env().unwrap());
-        slow.store(true, Ordering::SeqCst);
+        hold.store(true, Ordering::SeqCst);
         let r1 = reloader.clone();
-        // thread A polls freshness: sits in the callback for 300 ms with the notifier locked
+        // thread A polls freshness and stays in the callback (notifier locked) until released
         let ta = thread::spawn(move || {
             drop(r1.acquire_env().unwrap());
         });
-        thread::sleep(Duration::from_millis(80));
+        let entered = wait_until(&inside, Duration::from_secs(5));
         let notifier = reloader.notifier();
-        notifier.request_reload(); // returns only after the flag is set
+        let returned = Arc::new(AtomicBool::new(false));
+        let ret = returned.clone();
+        let tc = thread::spawn(move || {
+            notifier.request_reload();
+            ret.store(true, Ordering::SeqCst);
+        });
+        // the request may block on the notifier lock (fine) or return at once; either way release the callback after a moment
+        wait_until(&returned, Duration::from_millis(300));
+        hold.store(false, Ordering::SeqCst);
+        release.store(true, Ordering::SeqCst);
         ta.join().unwrap();
-        slow.store(false, Ordering::SeqCst);
+        tc.join().unwrap();
         drop(reloader.acquire_env().unwrap());
         let n = created.load(Ordering::SeqCst);
-        println!("{}", serde_json::json!({"scenario": "request_while_freshness_callback_runs", "check": "request_sets_flag", "ok": n >= 2,
+        println!("{}", serde_json::json!({"scenario": "request_while_freshness_callback_runs", "check": "request_sets_flag", "ok": entered && n >= 2,
             "detail": format!("creator ran {} time(s); a request issued while the freshness callback was running must lead to a rebuild", n)}));
     }
 }
